@@ -233,7 +233,39 @@ func instrument(p pkgInfo, overlay map[string]string, stats map[string]int) {
 					n.Name = ast.NewIdent("atomic")
 					stats["atomic_imports"]++
 				}
+			case *ast.IndexExpr:
+				// element of a slice (heap memory that may be shared through the slice header)
+				if gen {
+					return true
+				}
+				xt, ok := info.Types[n.X]
+				if !ok || xt.Type == nil {
+					return true
+				}
+				if _, isSlice := xt.Type.Underlying().(*types.Slice); !isSlice {
+					return true
+				}
+				if tv, ok := info.Types[n]; !ok || !tv.IsValue() || !tv.Addressable() {
+					return true
+				}
+				if u, ok := c.Parent().(*ast.UnaryExpr); ok && u.Op == token.AND {
+					return true
+				}
+				if isWritePos(c) {
+					c.Replace(hook("W", n))
+					stats["elem_writes"]++
+				} else {
+					c.Replace(hook("R", n))
+					stats["elem_reads"]++
+				}
 			case *ast.CallExpr:
+				if id, ok := n.Fun.(*ast.Ident); ok && id.Name == "append" && len(n.Args) >= 1 && !gen {
+					if _, isBuiltin := info.Uses[id].(*types.Builtin); isBuiltin {
+						usedRT = true
+						n.Args[0] = &ast.CallExpr{Fun: &ast.SelectorExpr{X: ast.NewIdent("vrt"), Sel: ast.NewIdent("AppendHook")}, Args: []ast.Expr{n.Args[0], site(n)}}
+						stats["append_hooks"]++
+					}
+				}
 				if se, ok := n.Fun.(*ast.SelectorExpr); ok && (se.Sel.Name == "MapKeys" || se.Sel.Name == "MapRange") && len(n.Args) == 0 {
 					if tv, ok := info.Types[se.X]; ok && tv.Type.String() == "reflect.Value" {
 						usedRT = true
